@@ -338,7 +338,7 @@ def r2(cx):
 @RS.rule('C18.R3', 'K-ORDER', 'read-eval loop: mode refreshed and one command line parsed per iteration, then run; buffered text never flushed while pending')
 def r3(cx):
     F = cx.F
-    body = F.main_body(LOOP)
+    body = F.inlined(F.main_body(LOOP))       # private helpers of the runner module are inlined (extracted loop preamble)
     cx.fn(body.fn)
     du = Q.DefUse(body)
     parse = Q.find_calls(body, ['*::command_line'])
